@@ -79,6 +79,7 @@ def opOfText (t : List String) : Option Op :=
   | ["exp", n] => do some (.expand (← int? n))
   | ["sort"] => some .sort
   | ["copy"] => some .copy
+  | ["ccopy"] => some .copy          -- `copy.copy(c)` → `__copy__`, the same constructor call
   | _ => none
 
 def runOne (s : Coll Cls) (txt : String) : Option (Coll Cls × String) :=
